@@ -124,6 +124,7 @@ def _run_scenario(sc: dict) -> dict:
                 trace_id=f"{sc['id']}#{si}",
                 expect=step.get("expect"),
                 site_lines=step.get("site_lines"),
+                site_findings=step.get("site_findings"),
                 outside_unchanged=(outside_after == outside_before) and not stray,
                 schema_check=_get_schema_check(),
             )
